@@ -500,10 +500,28 @@ pub fn families() -> Vec<Box<dyn Family>> {
                     let ol = rng.below(lo - o + 1);
                     let nl = rng.below(ln - n + 1);
                     let op = make_op(rng.below(4), o, ol, n, nl);
-                    if op.old_range().is_empty() && op.new_range().is_empty() {
+                    // completely empty ops (they expand to nothing) are kept in every 4th case,
+                    // also in last position
+                    if op.old_range().is_empty() && op.new_range().is_empty() && idx % 4 != 3 {
                         continue;
                     }
                     ops.push(op);
+                }
+                // every 8th case: a run of CONTIGUOUS ops of one kind (what an uncompacted script looks like)
+                if idx % 8 == 6 {
+                    let kind = rng.below(3) + 1;
+                    let (mut o, mut n) = (rng.below(lo), rng.below(ln));
+                    ops.clear();
+                    for _ in 0..2 + rng.below(2) {
+                        let ol = if kind != 2 { 1.min(lo - o) } else { 0 };
+                        let nl = if kind != 1 { 1.min(ln - n) } else { 0 };
+                        if ol + nl == 0 {
+                            break;
+                        }
+                        ops.push(make_op(kind, o, ol, n, nl));
+                        o += ol;
+                        n += nl;
+                    }
                 }
                 if ops.is_empty() {
                     return;
@@ -545,6 +563,18 @@ pub fn families() -> Vec<Box<dyn Family>> {
                         (c.tag(), c.old_index(), c.new_index(), c.value())
                     }
                     let mut fails: Vec<String> = Vec::new();
+                    // re-applying the whole list to ONE capturing hook reproduces the list, op by op
+                    {
+                        let mut c = Capture::new();
+                        for op in &ops {
+                            op.apply_to_hook(&mut c).unwrap();
+                        }
+                        c.finish().unwrap();
+                        let back = c.into_ops();
+                        if back != ops {
+                            fails.push(format!("apply_to_hook of the ops one after the other into ONE Capture gives {:?}", back));
+                        }
+                    }
                     let h = similar::udiff::UnifiedDiffHunk::new(ops.clone(), &d, true);
                     let got: Vec<R> = h.iter_changes().map(rrow).collect();
                     if got != reference {
